@@ -346,7 +346,7 @@ pub fn run_memory(ctx: &Ctx) {
                 let (m, name) = structured(reqs, &mut rng);
                 mem_case(ctx, &svc, &orig, &m, &name, &desc);
             }
-            if ci % 5 == 0 {
+            if ci % 5 == 0 || ctx.want_sample() {
                 let (m, name) = mutate(&orig, 5, orig.len() / 2, &mut rng);
                 ctx.sample(json!({"corpus": desc, "operator": name, "mutated": show(&m)}));
             }
